@@ -206,8 +206,8 @@ def prepare(hyps, pc, goal, extra_terms=()):
             pool.append(z3.BitVecVal(0, w))
     if has_quant(g):
         return None, full
-    qf = [ground(h, by_sort) for h in hyps] + [ground(pc, by_sort)]
-    qf.append(z3.Not(g))
+    qf = [ground(h, by_sort) for h in hyps]
+    tail = [ground(pc, by_sort), z3.Not(g)]
     # E-matching on array reads for one-variable universals (two rounds: instances expose new reads)
     quants = []
     for h in hyps:
@@ -216,6 +216,7 @@ def prepare(hyps, pc, goal, extra_terms=()):
         done = {}
         for _ in range(1):
             its = index_terms([g, pc], limit=24)
+            qf_probe = qf
             added = False
             for gi, (guard, q) in enumerate(quants):
                 for x in ematch_instances(q, its):
@@ -229,7 +230,7 @@ def prepare(hyps, pc, goal, extra_terms=()):
                     added = True
             if not added:
                 break
-    return qf, full
+    return qf + tail, full
 
 
 def collect_universals(h, guard, out):
